@@ -99,9 +99,16 @@ class ScriptGen:
 SL = ['ctx', 't0', 't1', 'n', 'res', 'susp', 'wake', 'budget', 'can_suspend', 'empty_after', 'known0', 'known1', 'terminated', 'seq0', 'seq1']
 
 
-def check_schedule(slices):
-    """replays the round-robin; returns list of (kind, text)"""
+def check_schedule(slices, drops=()):
+    """replays the round-robin; returns list of (kind, text). drops: (ctx, terminate flag last seen, seq) of scripts that left the
+    scheduler list without finishing through a slice - legitimate exactly when they had been terminated"""
     out = []
+    dropped = {}
+    for c_, term, seq in drops:
+        if not term:
+            out.append(('vanished', 'script context %d left the scheduler list without finishing and without having been terminated' % c_))
+            return out
+        dropped[c_] = seq
     if not slices:
         return [('no-slices', 'the slice log is empty')]
     alive = list(range(slices[0]['known0']))
@@ -123,6 +130,11 @@ def check_schedule(slices):
             cand = alive[i]
             if cand == c:
                 break
+            if cand in dropped and dropped[cand] <= s['seq1']:
+                # terminated scripts end when the scheduler gets to them: no slice, gone from the list
+                alive.remove(cand)
+                steps += 1
+                continue
             st = state.get(cand)
             if not (st and st['susp']):
                 out.append(('runnable-script-skipped', 'before slice %d (context %d) the runnable context %d was due but got no slice (list %s)' % (idx, c, cand, alive)))
@@ -161,7 +173,8 @@ def analyse(chk, gen, st, label, replay, budget):
     if errs:
         chk.violation('unexpected-error|' + errs[0][2].split('\t')[-1][:40], '%s raised %s' % (label, errs[0][2][:200]), replay)
         return
-    for kind, text in check_schedule(slices):
+    drops = mon.get('drops') or []
+    for kind, text in check_schedule(slices, drops):
         chk.violation('schedule|' + kind, '%s (slice budget %d): %s' % (label, budget, text), dict(replay, slices=raw[:80]))
         return
     # events with their logical time
@@ -200,6 +213,13 @@ def analyse(chk, gen, st, label, replay, budget):
         m = re.match(r'"term",(\d+)$', rest)
         if m:
             terminated_at.setdefault(int(m.group(1)), seq)
+    # a terminator can itself be dropped between its terminate call and the statement that reports it: the monitor's record of
+    # scripts dropped with the terminate flag set is the authority, the "term" events only give the earlier time
+    inv = {c: sid for sid, c in ctx_of.items()}
+    for c_, term, dseq in drops:
+        if term and c_ in inv:
+            terminated_at.setdefault(inv[c_], dseq)
+    any_terminated = bool(terminated_at) or any(d[1] for d in drops)
     # per-script statement order (isolation): traces k = 1..K in order, complete unless terminated
     for sid, items in gen.scripts.items():
         want = [it[1] for it in items if it[0] == 'trace']
@@ -213,6 +233,9 @@ def analyse(chk, gen, st, label, replay, budget):
             if got != want[:len(got)]:
                 chk.violation('isolation|order', '%s: script %d traced %s, its statements are %s' % (label, sid, got, want), replay)
                 return
+        elif not got and any_terminated and sid not in ctx_of:
+            # a script that was never started because its spawner (or the spawner's spawner) was terminated first
+            chk.count('never_started_below_terminated')
         elif got != want:
             chk.violation('isolation|trace', '%s: script %d traced %s instead of %s (interleaving must not change a script\'s own order and results)' % (label, sid, got, want), replay)
             return
@@ -250,6 +273,23 @@ def analyse(chk, gen, st, label, replay, budget):
             # the target never traced anything before: cannot be mapped; it still has statements, so false is the only truthful answer if it never finished
             continue
         f = final.get(c)
+        if f is None and tgt in terminated_at:
+            # terminated: done from the moment the scheduler dropped it; between the terminate call and the drop either answer can be observed
+            dseq = next((d[2] for d in drops if d[0] == c), None)
+            # the drop happened between two slices: after the end of the last slice before its record and before the record
+            lo = max([s_['seq1'] for s_ in slices if dseq is not None and s_['seq1'] < dseq] or [0])
+            if dseq is not None and dseq < seq_pre:
+                truth = True
+            elif dseq is None or seq < lo:
+                truth = False       # still in the scheduler's list while the poll was evaluated
+            else:
+                chk.count('scriptDone_polls_ambiguous')
+                continue
+            if ans != truth:
+                chk.violation('scriptDone|terminated|%s' % ('true-too-early' if ans else 'false-after-drop'),
+                              '%s: scriptDone of terminated script %d answered %s' % (label, tgt, ans), replay)
+                return
+            continue
         if f is not None and f['seq1'] < seq_pre:
             truth = True
         elif f is None or f['seq0'] > seq:
@@ -266,6 +306,7 @@ def analyse(chk, gen, st, label, replay, budget):
         c = ctx_of.get(tgt)
         if c is None:
             continue
+        # the script that calls terminate on itself, or is terminated while it holds the slice, still finishes that slice
         ran = sum(s['n'] for s in slices if s['ctx'] == c and s['seq0'] > seq)
         if ran > 0 and not chk.known_by_sig('terminate-ignored'):
             chk.violation('terminated-script-ran', '%s: %d instructions of script %d executed after terminate' % (label, ran, tgt), replay)
